@@ -312,3 +312,66 @@ func DecodeUTF16(b []byte) string {
 	}
 	return string(utf16.Decode(u))
 }
+
+// ---- CONFIG_BYTES as DemonConfig() (payloads/Demon/src/Demon.c) reads them ----
+
+type DemonCfg struct {
+	Sleep, Jitter, Alloc, Exec                        uint32
+	Spawn64, Spawn32                                  string
+	Tech, Gadget, Stack, Load, Syscall, Amsi          uint32
+	KillDate                                          uint64
+	WorkingHours                                      uint32
+	Method                                            string
+	Rotation                                          uint32
+	Hosts                                             []string
+	Ports                                             []uint32
+	Secure                                            uint32
+	UserAgent                                         string
+	Headers, Uris                                     []string
+	ProxyEnabled                                      uint32
+	ProxyURL, ProxyUser, ProxyPass                    string
+	Pipe                                              string
+	Left                                              int
+}
+
+func (r *Rd) WStr() string { return DecodeUTF16(r.Bytes()) }
+
+// ReadConfig parses a configuration block; smb selects the TRANSPORT_SMB layout.
+func ReadConfig(b []byte, smb bool) (DemonCfg, error) {
+	r := &Rd{B: b}
+	c := DemonCfg{}
+	c.Sleep, c.Jitter, c.Alloc, c.Exec = r.I32(), r.I32(), r.I32(), r.I32()
+	c.Spawn64, c.Spawn32 = r.WStr(), r.WStr()
+	c.Tech, c.Gadget, c.Stack, c.Load, c.Syscall, c.Amsi = r.I32(), r.I32(), r.I32(), r.I32(), r.I32(), r.I32()
+	if smb {
+		c.Pipe = r.WStr()
+		c.KillDate = r.I64()
+		c.WorkingHours = r.I32()
+	} else {
+		c.KillDate = r.I64()
+		c.WorkingHours = r.I32()
+		c.Method = r.WStr()
+		c.Rotation = r.I32()
+		n := r.I32()
+		for i := uint32(0); i < n && r.Err == nil; i++ {
+			c.Hosts = append(c.Hosts, r.WStr())
+			c.Ports = append(c.Ports, r.I32())
+		}
+		c.Secure = r.I32()
+		c.UserAgent = r.WStr()
+		n = r.I32()
+		for i := uint32(0); i < n && r.Err == nil; i++ {
+			c.Headers = append(c.Headers, r.WStr())
+		}
+		n = r.I32()
+		for i := uint32(0); i < n && r.Err == nil; i++ {
+			c.Uris = append(c.Uris, r.WStr())
+		}
+		c.ProxyEnabled = r.I32()
+		if c.ProxyEnabled != 0 {
+			c.ProxyURL, c.ProxyUser, c.ProxyPass = r.WStr(), r.WStr(), r.WStr()
+		}
+	}
+	c.Left = len(r.B)
+	return c, r.Err
+}
